@@ -223,6 +223,10 @@ def run_fitlinear(part, unit):
         part.transitions += 3
         part.evals += 1
         c1, c2, c3 = (np.asarray(f.coeffs, dtype=float) for f in (f1, f2, f3))
+        if c1.shape != (N,) or c2.shape != (N,) or c3.shape != (N,):
+            part.violation(PID, 'fit-returns-N-coefficients', 'ZernikeFit', f'family={fam},N={N}', dict(set=sname),
+                           observed=[list(c1.shape), list(c2.shape), list(c3.shape)], expected=[N])
+            continue
         exp = 1.7 * c1 - 0.4 * c2
         if c3.shape != exp.shape or np.max(np.abs(c3 - exp)) > 1e-7 * max(1.0, np.max(np.abs(exp))):
             part.violation(PID, 'fit-linear-in-data', 'ZernikeFit', f'family={fam},N={N}', dict(set=sname), observed=c3[:6],
